@@ -1169,6 +1169,7 @@ def rename_normalise(sources):
     base = _baseline()
     trees = {}
     cur = {}
+    decorated, bases_of, defined_by = {}, {}, {}
     for rel, src in sources.items():
         try:
             t = ast.parse(src, filename=rel)
@@ -1179,6 +1180,10 @@ def rename_normalise(sources):
         for st in t.body:
             if isinstance(st, ast.ClassDef):
                 cur['%s.%s' % (mod, st.name)] = {m.name: [a.arg for a in m.args.posonlyargs + m.args.args + m.args.kwonlyargs] for m in st.body if isinstance(m, ast.FunctionDef)}
+                decorated['%s.%s' % (mod, st.name)] = {m.name for m in st.body if isinstance(m, ast.FunctionDef) and any(
+                    ast.unparse(d_).split('.')[-1] in ('property', 'setter', 'deleter', 'cached_property', 'staticmethod', 'classmethod') for d_ in m.decorator_list)}
+                bases_of['%s.%s' % (mod, st.name)] = [ast.unparse(b_).split('.')[-1] for b_ in st.bases]
+                defined_by.setdefault(st.name, set()).update(m.name for m in st.body if isinstance(m, ast.FunctionDef))
     all_names = set()
     for t in trees.values():
         for n in ast.walk(t):
@@ -1203,6 +1208,20 @@ def rename_normalise(sources):
         if not missing or not extra:
             continue
         for old in missing:
+            # a method the class now INHERITS (hoisted into a base class of the tree) was not renamed; a property / static method is not a renamed plain method
+            inherited = False
+            todo_, seen_ = list(bases_of.get(cq, [])), set()
+            while todo_:
+                b_ = todo_.pop()
+                if b_ in seen_:
+                    continue
+                seen_.add(b_)
+                if old in defined_by.get(b_, ()):
+                    inherited = True
+                todo_.extend(x_ for q_, bs_ in bases_of.items() if q_.rsplit('.', 1)[-1] == b_ for x_ in bs_)
+            if inherited:
+                continue
+            extra = [e for e in extra if e not in decorated.get(cq, ())]
             cands = [e for e in extra if cur[cq][e] == meths[old] and e not in ren]
             if len(missing) == 1 and len(extra) == 1:
                 cands = [e for e in extra if len(cur[cq][e]) == len(meths[old])]
